@@ -3,6 +3,7 @@
 tools/reconfirm.py <ids> afterwards and drop the ones that are not confirmed (tools/seed_import2.py --prune)"""
 import json, os, shutil, sys
 V = os.path.dirname(os.path.dirname(os.path.abspath(__file__)))
+ROUND = int(os.environ.get("ROUND", "2"))      # round r: agent output under /tmp/mut<r>/out, stored as m<3(r-1)+i>
 if sys.argv[1:2] == ["--prune"]:
     conf = {}
     for l in open(os.path.join(V, "seeded", "RECONFIRM.tsv")):
@@ -13,12 +14,12 @@ if sys.argv[1:2] == ["--prune"]:
         mp = os.path.join(V, "seeded", d, "meta.json")
         if os.path.exists(mp):
             m = json.load(open(mp))
-            if m.get("round") == 2 and "reconfirmed_at" not in m:
+            if m.get("round", 1) >= 2 and "reconfirmed_at" not in m:
                 print("dropping unconfirmed", d, conf.get(d))
                 shutil.rmtree(os.path.join(V, "seeded", d))
     sys.exit(0)
 for ID in sys.argv[1:]:
-    base = "/tmp/mut2/out/%s" % ID
+    base = "/tmp/mut%d/out/%s" % (ROUND, ID)
     if not os.path.isdir(base):
         print("no output for", ID)
         continue
@@ -26,7 +27,7 @@ for ID in sys.argv[1:]:
         d = os.path.join(base, m)
         if not (m.startswith("m") and m[1:].isdigit() and os.path.exists(os.path.join(d, "patch.diff")) and os.path.exists(os.path.join(d, "demo.rs"))):
             continue
-        out = os.path.join(V, "seeded", "%s-m%d" % (ID, int(m[1:]) + 3))
+        out = os.path.join(V, "seeded", "%s-m%d" % (ID, int(m[1:]) + 3 * (ROUND - 1)))
         os.makedirs(out, exist_ok=True)
         shutil.copy(os.path.join(d, "patch.diff"), out)
         shutil.copy(os.path.join(d, "demo.rs"), out)
@@ -35,6 +36,6 @@ for ID in sys.argv[1:]:
         except Exception:
             meta = {}
         meta["property"] = ID
-        meta["round"] = 2
+        meta["round"] = ROUND
         json.dump(meta, open(os.path.join(out, "meta.json"), "w"), indent=1)
         print("staged", out)
